@@ -3,7 +3,7 @@ import ast
 
 import z3
 
-from .sorts import (PyTypeOf, PyNav, PyDict, PyProperty, ArrT, SV, PyVal, PyTuple, Closure, BoundMethod, ModuleRef, ClassRef, SpecFn, INT, BOOL, STR, REAL, VAL, NONE,
+from .sorts import (PyStarSeq, PyTypeOf, PyNav, PyDict, PyProperty, ArrT, SV, PyVal, PyTuple, Closure, BoundMethod, ModuleRef, ClassRef, SpecFn, INT, BOOL, STR, REAL, VAL, NONE,
                     NONE_V, RefT, SeqT, SetT, MapT, TupT, Val, Ref, null, zsort, fresh, mk_bool, mk_int, mk_str, fresh_name)
 from .values import (nth, OutsideSubset, coerce, box, unbox, py_eq, truthy, ite, tup_items, empty_map, join_sort, is_ref,
                      int_to_str, str_to_int, is_int_literal, default_term)
@@ -57,6 +57,8 @@ class CallMixin(object):
                 sv = self.ev(a.value, st)
                 if isinstance(sv, PyTuple):
                     args.extend(sv.items)
+                elif isinstance(getattr(sv, 'sort', None), SeqT) and a is node.args[-1]:
+                    args.append(PyStarSeq(sv))          # f(x, *seq): bound as a whole to the callee's *parameter
                 else:
                     raise OutsideSubset('*args of symbolic length')
             else:
@@ -421,7 +423,13 @@ class CallMixin(object):
             names = names[:-1]
         if params and params[-1][0].startswith('*'):
             star = params.pop()
-            env[star[0][1:]] = PyTuple(args[len(params):])
+            rest = args[len(params):]
+            if len(rest) == 1 and isinstance(rest[0], PyStarSeq):
+                env[star[0][1:]] = rest[0].seq
+            elif any(isinstance(x, PyStarSeq) for x in args):
+                raise OutsideSubset('*sequence mixed with positional arguments of the star parameter')
+            else:
+                env[star[0][1:]] = PyTuple(rest)
             args = args[:len(params)]
             names = names[:-1]
         if len(args) > len(names):
